@@ -1,11 +1,10 @@
 #!/bin/bash
-# tools/seeded_eval.sh [<id>…] : for every kept seeded change /verif/seeded/<id>/patch.diff apply it to /repo's
-# working tree, run the quick checks of the properties listed in meta.json ("property" plus "also"), undo it.
-# Prints one line per (change, property): exit code, number of VIOLATION lines and the first finding keys.
+# tools/seeded_eval.sh [<id>…] : for every kept seeded change /verif/seeded/<id>/patch.diff run the quick checks of the
+# properties listed in its meta.json ("property" plus "also") against a scratch tree carrying the change
+# (tools/mutant_run.sh; four evaluations side by side). One line per (change, property).
 set -u
 cd /verif/seeded || exit 2
 ids=${@:-$(ls -d */ | tr -d /)}
-for id in $ids; do
-  props=$(python3 -c "import json;m=json.load(open('/verif/seeded/$id/meta.json'));print(' '.join([m['property']]+m.get('also',[])))")
-  VERIF_SCALE_PCT=${VERIF_SCALE_PCT:-100} /verif/tools/mutant_run.sh /verif/seeded/$id/patch.diff $props 2>&1 | sed "s|^patch.diff|seeded/$id|" | cut -c1-400
-done
+for id in $ids; do echo $id; done | xargs -P ${SEEDED_PAR:-4} -I{} bash -c '
+  id={}; props=$(python3 -c "import json;m=json.load(open(\"/verif/seeded/$id/meta.json\"));print(\" \".join([m[\"property\"]]+m.get(\"also\",[])))")
+  VERIF_WORKERS=8 /verif/tools/mutant_run.sh /verif/seeded/$id/patch.diff $props 2>&1 | sed "s|^patch.diff|seeded/$id|" | cut -c1-400'
